@@ -10,6 +10,7 @@ import re
 import shutil
 import subprocess
 from mirlib import *
+from lrstep import has_call, find_variant
 
 THOROUGH_WORKSPACE = True
 
@@ -141,9 +142,87 @@ def r141_142(facts, res):
                 elif norm_ty(got) != norm_ty(f['ty']):
                     res.bad(R2, key, loc_of(wb), 'field of type %s is written with the codec of %s' % (f['ty'][:80], got[:80]))
     res.count('R14.2 fields checked against the derived writer', nw)
+    enum_tags(facts, res, cl, R2)
     if not any(i['rule'] == R2 for i in res.instances):
         res.ok(R2, 'no-schema-attrs', '', 'none of the %d fields of the %d closure types carries a wincode(..)/serde(skip..) attribute' % (n, len(cl)))
     res.floor(R2, 'fields examined', n, 40)
+
+
+def enum_tags(facts, res, cl, R):
+    """every enum of the closure: the derived writer gives each variant its own wire tag, and the derived reader maps each
+    tag back to the variant the writer uses it for"""
+    ne = 0
+    for a in cl:
+        ad = facts.adts[a]
+        if ad['kind'] != 'enum':
+            continue
+        ne += 1
+        key = 'tags:' + a
+        loc = '%s:%s' % (ad['file'], ad['lo'])
+        def one(name, trait):
+            bs = [bd for bd in facts.lib_bodies(['cfgrammar', 'lrtable', 'lrpar']) if bd.name == name and bd.trait == trait
+                  and (bd.impl_of or '').split('<')[0] == a]
+            return bs[0] if len(bs) == 1 else None
+        wb = one('write', 'wincode::schema::SchemaWrite')
+        rb = one('read', 'wincode::schema::SchemaRead')
+        if wb is None or rb is None:
+            res.bad(R, key, loc, 'derived write()/read() of the enum not found')
+            continue
+        vnames = [v['name'] for v in ad['variants']]
+        wtag = {}
+        bad = []
+        for p in Walker(wb, facts, max_paths=4096).run(0):
+            vi = p.cond_on(lambda t: t[0] == 'discr' and term_has(t, lambda x: x == ('param', 2)))
+            if not isinstance(vi, int):
+                continue
+            tags = [e for e in p.calls() if e[2] and 'tag_encoding' in (e[2].get('resolved') or e[2]['path']).lower().replace('tagencoding', 'tag_encoding')]
+            if not tags:
+                continue
+            consts = [x[1] for x in tags[0][3] if is_const(x) and isinstance(x[1], int)]
+            if len(consts) != 1:
+                bad.append('cannot read the tag written for variant %s' % vnames[vi])
+                continue
+            wtag.setdefault(vi, set()).add(consts[0])
+        for vi, nm in enumerate(vnames):
+            if len(wtag.get(vi, ())) != 1:
+                bad.append('variant %s: %d different tags written' % (nm, len(wtag.get(vi, ()))))
+        if not bad:
+            by = {}
+            for vi, ts in wtag.items():
+                by.setdefault(next(iter(ts)), []).append(vnames[vi])
+            for t, vs in sorted(by.items()):
+                if len(vs) > 1:
+                    bad.append('variants %s are all written with tag %d: after a round trip they cannot be told apart' % (' and '.join(sorted(vs)), t))
+        # reader: tag -> variant constructed
+        rtag = {}
+        for p in Walker(rb, facts, max_paths=8192).run(0):
+            if p.end[0] != 'return':
+                continue
+            tv = [v for t, v in p.conds if isinstance(v, int) and has_call(t, 'try_into_u32') and t[0] != 'discr']
+            if len(tv) != 1:
+                continue
+            made = set()
+            for e in p.events:
+                terms = list(e[3]) if e[0] == 'call' else [e[3]]
+                for x in terms:
+                    fv = find_variant(x) if isinstance(x, tuple) else None
+                    if fv is not None and fv[1].split('<')[0] == a:
+                        made.add(fv[3])
+            for c, v in p.conds:
+                pass
+            if len(made) == 1:
+                rtag.setdefault(tv[0], set()).add(next(iter(made)))
+        for t, vs in sorted(rtag.items()):
+            for vn in vs:
+                vi = vnames.index(vn) if vn in vnames else None
+                if vi is not None and wtag.get(vi) and t not in wtag[vi]:
+                    bad.append('tag %d is read back as %s but %s is written with tag %s' % (t, vn, vn, sorted(wtag[vi])))
+        if bad:
+            res.bad(R, key, loc_of(wb), '; '.join(bad[:3]))
+        else:
+            res.ok(R, key, loc, '%d variants written with pairwise distinct tags %s; reader agrees on %d of them' % (
+                len(vnames), sorted(next(iter(ts)) for ts in wtag.values()), len(rtag)))
+    res.floor(R, 'enums in the codec closure', ne, 2)
 
 
 def norm_ty(t):
